@@ -136,7 +136,7 @@ Fixpoint filter_map {A B} (f : A -> option B) (l : list A) : list B :=
 Definition refresh_imi (t : topo) (i : imi) : option imi :=
   match i_loc i with
   | ICpu c => let c' := bs_inter c (t_root t) in
-              if bs_is_empty c' then None else Some (Imi (ICpu c') (i_val i) (i_ok i))
+              if bs_is_empty c' then None else Some (Imi (ICpu c') (i_val i) true)
   | IObj ty gp => match obj_by_type_gp t ty gp with
                   | Some _ => Some (Imi (IObj ty gp) (i_val i) true)
                   | None => None
